@@ -219,6 +219,10 @@ func (g *Gen) inputRaw(n *Node) IVal {
 		switch {
 		case c < 75:
 			k := r.Intn(g.P.MaxElems + 1)
+			if IsPrim(n.Elem.Kind) && r.P(4) {
+				// long inputs: lengths around the powers of two where index tables and buffers end
+				k = Pick(r, []int{31, 32, 33, 63, 64, 65, 66, 100, 129, 257})
+			}
 			v := IVal{Kind: "list", L: []IVal{}}
 			for i := 0; i < k; i++ {
 				v.L = append(v.L, g.Input(n.Elem))
@@ -332,6 +336,9 @@ func (g *Gen) destRaw(n *Node, t reflect.Type, populated bool) reflect.Value {
 			k := r.Intn(g.P.MaxElems + 1)
 			if populated && k == 0 {
 				k = 1
+			}
+			if IsPrim(n.Elem.Kind) && r.P(4) {
+				k = Pick(r, []int{31, 32, 33, 63, 64, 65, 66, 100, 129, 257})
 			}
 			s := reflect.MakeSlice(t, k, k)
 			for i := 0; i < k; i++ {
